@@ -171,7 +171,11 @@ class AccessorTie:
         self.attrs = {n: tuple(sorted(e.attrib.items())) for n, e in self.el.items()}
         ans = self.drv.ask({"op": "acc.load", "frags": frags})
         if "err" in ans:
-            raise common.InfraError(f"acc.load: {ans['err']}")
+            # the trees cannot be indexed (an id occurs twice within a fragment): such a state is outside the model's
+            # domain – the monitors of the check judge it; the tie stops for this history, visibly
+            self.decline(f"load:{ans['err']}")
+            self.out.hit("acc.load-refused")
+            self.close()
 
     def start(self, model, scan, key, hist_id):
         self.key, self.hist_id = key, hist_id
@@ -180,10 +184,10 @@ class AccessorTie:
             self.drv = None
             return
         self.drv = Driver()
-        self.load(model)
         self.call = None
         self.fake = FAKE_NID0
-        if not getattr(self, "keep_open", False):
+        self.load(model)
+        if self.drv is not None and not getattr(self, "keep_open", False):
             self.dump(("load",))   # translator round trip of the state transfer
 
     # ------------------------------------------------------------ per step
@@ -320,6 +324,8 @@ class AccessorTie:
             self.decline(f"model:{a['why']}")
             self.resync(model)
             return
+        if self.drv is None:
+            return
         self.stats["predicted"] += 1
         self.out.hit(f"acc.call.{call['m']}.{'ok' if rec.outcome == 'ok' else rec.outcome}")
         bad = self.compare(rec, model, call, a)
@@ -329,7 +335,7 @@ class AccessorTie:
             self.resync(model)
             return
         self.out.traces_validated += 1
-        if self.dump_every and rec.i % self.dump_every == self.dump_every - 1:
+        if self.drv is not None and self.dump_every and rec.i % self.dump_every == self.dump_every - 1:
             self.dump((rec.i,))
 
     def meta(self, rec):
@@ -468,6 +474,8 @@ class AccessorTie:
 
     def dump(self, meta):
         """full state: trees (order, parent, tag, attributes, type) and the private dictionaries"""
+        if self.drv is None:
+            return
         ans = self.drv.ask({"op": "acc.dump"})
         self.stats["dumps"] += 1
         if "err" in ans:
